@@ -29,6 +29,7 @@ type Solver struct {
 	nUnknown int
 	nErr     int
 	wall     time.Duration
+	wallValues time.Duration
 	timeout  int // ms
 	name     string
 }
@@ -67,6 +68,21 @@ func NewSolver(kind string, timeoutMs int, transcript io.Writer) (*Solver, error
 	}
 	s.send("(set-option :produce-models true)")
 	return s, nil
+}
+
+// Reset drops everything the solver has internalised (definitions are re-sent lazily).
+func (s *Solver) Reset() {
+	s.send("(reset)")
+	if s.name == "cvc5" {
+		s.send("(set-logic ALL)")
+	} else {
+		s.send(fmt.Sprintf("(set-option :timeout %d)", s.timeout))
+	}
+	s.send("(set-option :produce-models true)")
+	s.declared = map[string]bool{}
+	for _, t := range tt.tab {
+		t.sent = false
+	}
 }
 
 func (s *Solver) send(line string) {
@@ -205,6 +221,8 @@ func (s *Solver) readLine() string {
 
 // Values returns the model values of the given terms after a Sat answer.
 func (s *Solver) Values(ts []*Term) (map[int]uint64, error) {
+	t0 := time.Now()
+	defer func() { s.wallValues += time.Since(t0) }()
 	res := map[int]uint64{}
 	var q []*Term
 	for _, t := range ts {
@@ -407,6 +425,7 @@ func (s *Solver) Stats() map[string]interface{} {
 	return map[string]interface{}{
 		"solver": s.name, "sat": s.nSat, "unsat": s.nUnsat, "unknown": s.nUnknown,
 		"errors": s.nErr, "solver_s": math.Round(s.wall.Seconds()*1000) / 1000,
+		"model_s": math.Round(s.wallValues.Seconds()*1000) / 1000,
 	}
 }
 
